@@ -4,7 +4,11 @@ def _full():
     import contracts.transactions as t
     return list(t.FULL_CASES)
 CONTRACTS = _full() + ['bitcoinlib.transactions.Transaction.raw[full-legacy-any-count]', 'bitcoinlib.transactions.Transaction.raw[full-segwit-any-count]'] + ['bitcoinlib.encoding.int_to_varbyteint', 'bitcoinlib.encoding.varstr', 'bitcoinlib.encoding.varbyteint_to_int',
-             'bitcoinlib.encoding.read_varbyteint', 'bitcoinlib.encoding.read_varbyteint_return']
+             'bitcoinlib.encoding.read_varbyteint', 'bitcoinlib.encoding.read_varbyteint_return'] + [
+             # the parse side of the round trip reads whatever form a peer used: per-form decoder / reader contracts on any payload (shared with C18)
+             'bitcoinlib.encoding.%s[%s]' % (f, c) for f, cs in (('varbyteint_to_int', ('single-byte', 'form-fd', 'form-fe', 'form-ff')),
+                                                                ('read_varbyteint', ('form-fd', 'form-fe', 'form-ff')),
+                                                                ('read_varbyteint_return', ('form-fd', 'form-fe', 'form-ff'))) for c in cs]
 LEVEL = 'proof'
 LEVEL_TEXT = ('SERIALISATION proved: Transaction.raw() equals the wire format (BIP144 for segwit) for legacy and segwit transactions with 1..2 inputs, '
               '1..2 outputs and 1..2 witness items per input - every field symbolic, scripts and witness items of any length (counts are bounded: '
